@@ -15,12 +15,37 @@ import (
 )
 
 var Registry = map[string]func(){
-	"Heads":   Heads,
-	"Stream":  Stream,
-	"Lists":   Lists,
-	"Address": Address,
-	"Kes":     Kes,
-	"Segment": Segment,
+	"Heads":      Heads,
+	"Stream":     Stream,
+	"Lists":      Lists,
+	"Address":    Address,
+	"Kes":        Kes,
+	"Segment":    Segment,
+	"Diagnostic": Diagnostic,
+}
+
+// Diagnostic: the hand-written diagnostic tree parser on arbitrary bytes: it returns a tree or
+// an error, never panics, and never sizes an allocation by a length claimed in the input
+// (the executor's allocation obligation: every make() is bounded by a small multiple of the
+// input size). A returned tree lies inside the input.
+func Diagnostic() {
+	cbor.VerifAnyIsOpaque = true
+	data := sym.Bytes("d", sym.Param("len"))
+	if k := sym.Param("long_head"); k != 0 {
+		// an array or map whose head carries a k-byte count (k = 1, 2, 4, 8: the
+		// inflated-length shapes), followed by the rest of the input
+		ai := map[int]byte{1: 24, 2: 25, 4: 26, 8: 27}[k]
+		sym.Assume((data[0]>>5 == 4 || data[0]>>5 == 5) && data[0]&0x1f == ai)
+	}
+	var node *cbor.DiagnosticNode
+	var err error
+	used := sym.AllocatedBy(func() { node, err = cbor.ParseDiagnostic(data) })
+	sym.Reach("done")
+	sym.Assert(used <= 1<<20, "memory use stays proportional to the input size, not to a length claimed inside it (native measurement; 1 MiB for at most 11 input bytes)")
+	if err == nil {
+		sym.Reach("parsed")
+		sym.Assert(node != nil && node.Offset == 0 && node.Length == len(data), "a parsed item covers the whole input")
+	}
 }
 
 // Heads: the header-inspection helpers on arbitrary bytes.
